@@ -161,6 +161,21 @@ def gen_case(rng, dialect):
         c = rng.choice(names)
         deep = L(S(pw), S(u), I(rng.choice([20, 25, 40])))
         body = L(S("if"), S(c), L(S("c"), deep, body), body) if rng.random() < 0.5 else L(S("if"), S(c), body, L(S("c"), deep, body))
+    r2 = rng.random()
+    if names and r2 < 0.07:
+        # an expression nested past the evaluator's stack limit (a long `list`): the check either gives up (no claim)
+        # or must still see the parameter at the far end (seed C17-1: evaluator errors swallowed under ignore_exn)
+        L, S, I = progen.L, progen.S, progen.I
+        c = rng.choice(names)
+        k = rng.choice([90, 120, 160])
+        body = L(*([S("list"), body] + [I(1000 + j) for j in range(k)] + [S(c)]))
+    elif len(names) >= 2 and r2 < 0.14 and dialect != "strict21":
+        # a lambda with a capture whose body has an `if`, applied via `a` under another operator: reducing the
+        # operator's argument makes the evaluator raise (seed C17-1's other trigger)
+        L, S, I = progen.L, progen.S, progen.I
+        c1, c2 = rng.sample(names, 2)
+        lam = L(S("lambda"), L(L(S("&"), S(c1)), S("on_1")), L(S("if"), S("on_1"), S(c1), I(0)))
+        body = L(S("c"), L(S("a"), lam, L(S("list"), S(c2))), body)
     forms = [progen.S("mod"), pat, progen.L(progen.S("include"), progen.S(progen.SIGILS[dialect]))] + helpers + [body]
     tree = ("list", forms, None)
     return {"tree": tree, "text": progen.text(tree), "rich": progen.rich(tree), "shape": shape, "types": types,
